@@ -212,6 +212,8 @@ def run_unit(unit, case, tier="quick"):
         return res
     timeout = unit.timeout * (6 if tier == "thorough" else 1)
     try:
+        from .interp import MODULE_VARIANTS
+        MODULE_VARIANTS.clear()
         ctx = Ctx(unit, case, tier)
         interp = ctx.interp
         with use_state(ctx.state):
